@@ -34,14 +34,14 @@ var c16Statements = []string{
 	"SELECT id FROM t1 WHERE plain LIKE '%s%%' LIMIT %d",
 	"UPDATE t1 SET plain = '%s' WHERE id = %d",
 	"DELETE FROM t2 WHERE note = '%s' AND id = %d",
-	"SELECT id, note FROM t9 WHERE note = '%s' AND id = %d",                   // rejected by the firewall (table t9)
-	"SELEC id FRM t2 WHERE note = '%s' AND id = %d",                           // unparsable
-	"SELECT id, note FROM no_such_table WHERE note = '%s' AND id = %d",        // database error
-	"SELECT id, plain FROM t1 WHERE plain = E'%s\\n' AND id = %d",             // escape-string literal
-	"SELECT id, plain FROM t1 WHERE plain = '%s' AND id = -%d",                // negative number
-	"SELECT id, plain FROM t1 WHERE id = %d.5e0 AND plain = '%s'",             // decimal / exponent
-	"CREATE TABLE zz (a text DEFAULT '%s', b bigint DEFAULT %d)",              // DDL
-	"SELECT upper('%s'), id FROM t1 WHERE id = %d",                            // function argument
+	"SELECT id, note FROM t9 WHERE note = '%s' AND id = %d",                               // rejected by the firewall (table t9)
+	"SELEC id FRM t2 WHERE note = '%s' AND id = %d",                                       // unparsable
+	"SELECT id, note FROM no_such_table WHERE note = '%s' AND id = %d",                    // database error
+	"SELECT id, plain FROM t1 WHERE plain = E'%s\\n' AND id = %d",                         // escape-string literal
+	"SELECT id, plain FROM t1 WHERE plain = '%s' AND id = -%d",                            // negative number
+	"SELECT id, plain FROM t1 WHERE id = %d.5e0 AND plain = '%s'",                         // decimal / exponent
+	"CREATE TABLE zz (a text DEFAULT '%s', b bigint DEFAULT %d)",                          // DDL
+	"SELECT upper('%s'), id FROM t1 WHERE id = %d",                                        // function argument
 	"SELECT id FROM t1 WHERE plain = (SELECT note FROM t2 WHERE note = '%s' AND id = %d)", // sub-select
 	"SELECT '%s', %d FROM t1",                                                             // select list
 	"SELECT plain, count(*) FROM t1 GROUP BY plain HAVING plain = '%s' OR count(*) > %d",  // HAVING
@@ -63,6 +63,23 @@ var c16Statements = []string{
 	"INSERT INTO t2 (id, note) VALUES (1, 'x') RETURNING '%s', %d",                        // RETURNING list
 	"INSERT INTO t1 (id, plain, c2) VALUES (5, '%s', %d)",                                 // value out of range for a tokenized int32 column
 	"UPDATE t1 SET c2 = '%s' WHERE id = %d",                                               // text for a tokenized int32 column
+	"SELECT id FROM t1 WHERE plain = '%s' UNION SELECT id FROM t2 ORDER BY id LIMIT %d",   // tail of a UNION
+	"SELECT id FROM t2 UNION SELECT id FROM t1 ORDER BY id = %d, plain = '%s'",            // ORDER BY expression of a UNION
+	"SELECT id FROM t1 WHERE plain = '%s' LIMIT ALL OFFSET %d",                            // LIMIT ALL
+	"EXECUTE st ('%s', %d)",                                                     // SQL-level EXECUTE
+	"SELECT timestamp '%s', %d FROM t1",                                         // typed literal
+	"SELECT 'a' '%s', %d FROM t1",                                               // adjacent strings
+	"SELECT id, interval '%s' FROM t1 WHERE id = %d",                            // interval literal
+	"SELECT id FROM t1 WHERE id IN (SELECT %d UNION SELECT 1) AND plain = '%s'", // UNION in a sub-select
+	"INSERT INTO t2 (id, note) VALUES (1, 'x') ON CONFLICT (id) DO UPDATE SET note = '%s', id = %d",
+	"UPDATE t2 SET note = 'x' WHERE id = 1 RETURNING '%s', %d",
+	"DELETE FROM t2 WHERE id = 1 RETURNING '%s', %d",
+	"SELECT id FROM t1 WHERE plain ILIKE '%s' AND id IS DISTINCT FROM %d",
+	"SELECT id FROM t1 JOIN t2 ON t1.plain = '%s' AND t2.id = %d",
+	"SELECT EXISTS (SELECT 1 FROM t1 WHERE plain = '%s' AND id = %d)",
+	"SELECT id FROM t1 WHERE (plain, id) = ('%s', %d)",
+	"SELECT id FROM t1 WHERE plain = '%s' GROUP BY id + %d",
+	"SELECT position('%s' in plain), substring(plain from %d) FROM t1",
 }
 
 // statements in the MySQL dialect (MySQL runs)
@@ -85,13 +102,13 @@ var c16MyStatements = []string{
 	"SELECT '%s', %d FROM t1",
 	"SELECT plain, count(*) FROM t1 GROUP BY plain HAVING plain = '%s' OR count(*) > %d",
 	"SELECT id FROM t1 WHERE plain = '%s' UNION SELECT id FROM t2 WHERE id = %d",
-	"SELECT id FROM t1 WHERE plain = '%s' LIMIT %d, 5",                 // MySQL LIMIT offset, count
+	"SELECT id FROM t1 WHERE plain = '%s' LIMIT %d, 5", // MySQL LIMIT offset, count
 	"INSERT INTO t2 (id, note) VALUES (1, 'x'), (%d, '%s')",
 	"SELECT CASE WHEN plain = '%s' THEN %d ELSE 0 END FROM t1",
-	"SELECT `id` FROM `t1` WHERE `plain` = '%s' AND `id` = %d",         // back-quoted identifiers
+	"SELECT `id` FROM `t1` WHERE `plain` = '%s' AND `id` = %d", // back-quoted identifiers
 	"SELECT id FROM t1 WHERE plain = 'it''s %s' AND id = +%d",
 	"SELECT id FROM t1 WHERE plain = 'back\\\\slash %s' AND id = %d", // backslash escape
-	"CREATE TABLE zz (a text DEFAULT '%s', b garbage %d)",              // DDL understood only in part
+	"CREATE TABLE zz (a text DEFAULT '%s', b garbage %d)",            // DDL understood only in part
 	"INSERT INTO t2 (id, note) SELECT id, '%s' FROM t1 WHERE id = %d",
 	"INSERT INTO t2 (id, note) VALUES (%d, '%s') ON DUPLICATE KEY UPDATE note = 'dup-%s'",
 	"REPLACE INTO t2 (id, note) VALUES (%d, '%s')",
@@ -104,6 +121,27 @@ var c16MyStatements = []string{
 	"SELECT group_concat(plain SEPARATOR '%s') FROM t1 WHERE id = %d",
 	"INSERT INTO t1 (id, plain, c2) VALUES (5, '%s', %d)",
 	"UPDATE t1 SET c2 = '%s' WHERE id = %d",
+	"SELECT id FROM t1 WHERE plain = '%s' UNION SELECT id FROM t2 ORDER BY id LIMIT %d",
+	"SELECT id FROM t2 UNION SELECT id FROM t1 ORDER BY id = %d, plain = '%s'",
+	"SHOW TABLES LIKE '%s'",
+	"SHOW TABLES WHERE Tables_in_sim = '%s' OR 1 = %d",
+	"CREATE TABLE zz (a text COMMENT '%s', b bigint DEFAULT %d)",
+	"SELECT timestamp '%s', %d FROM t1",
+	"SELECT 'a' '%s', %d FROM t1",
+	"SELECT id AS '%s' FROM t1 WHERE id = %d",
+	"SELECT id FROM t1 WHERE id IN (SELECT %d UNION SELECT 1) AND plain = '%s'",
+	"INSERT INTO t2 SET note = '%s', id = %d",
+	"SELECT id FROM t1 JOIN t2 ON t1.plain = '%s' AND t2.id = %d",
+	"SELECT EXISTS (SELECT 1 FROM t1 WHERE plain = '%s' AND id = %d)",
+	"SELECT id FROM t1 WHERE (plain, id) = ('%s', %d)",
+	"SELECT id FROM t1 WHERE plain REGEXP '%s' AND id <=> %d",
+	"SELECT id FROM t1 WHERE match(plain) against ('%s') AND id = %d",
+	"SELECT convert('%s', char), cast(%d as char) FROM t1",
+	"DELETE FROM t2 WHERE note = '%s' ORDER BY id LIMIT %d",
+	"UPDATE t2 SET note = '%s' ORDER BY id LIMIT %d",
+	"SELECT id FROM t1 WHERE plain = BINARY '%s' AND id = %d DIV 2",
+	"SELECT id FROM t1 WHERE plain = '%s' AND id = if(id > %d, 1, 2)",
+	"SELECT id FROM t1 WHERE plain = _utf8'%s' AND id = %d",
 }
 
 func (C16) Explore(x *kernel.Explorer, seed uint64) {
@@ -113,7 +151,7 @@ func (C16) Explore(x *kernel.Explorer, seed uint64) {
 			"chunk": int64(r.Intn(4)), "level": int64(r.Intn(3)), "format": int64(r.Intn(3)), "extended": int64(r.Intn(2)), "ignoreparse": int64(r.Intn(2)), "strictparse": int64(r.Intn(3) / 2), "mysql": int64(r.Intn(3) / 2), "depeof": int64(r.Intn(2)), "wyield": int64(r.Intn(2))}}
 		n := 2 + r.Intn(8)
 		for j := 0; j < n; j++ {
-			plan.Ops = append(plan.Ops, kernel.Op{ID: j + 1, Kind: "stmt", A: []int64{int64(r.Intn(35 * 37))}})
+			plan.Ops = append(plan.Ops, kernel.Op{ID: j + 1, Kind: "stmt", A: []int64{int64(r.Intn(len(c16Statements) * len(c16MyStatements)))}})
 		}
 		x.Exec(plan)
 	}
